@@ -53,6 +53,15 @@ let fops : float numOps = {
   ltb = (fun a b -> a < b); leb = (fun a b -> a <= b); eqb0 = (fun a b -> a -. b = 0.);
 }
 
+(* the same operations with a relative perturbation of 1e-12 on the results of the power and function calls: the
+   second evaluation of every case uses them (and perturbed variable values) to measure how rounding differences
+   between libm / tfel::math::power<N> / std::pow are amplified by the rest of the formula *)
+let pert v = v *. (1. +. 1e-12)
+let fops_p : float numOps = { fops with
+  pow = (fun a b -> pert (fops.pow a b)); powz = (fun a n -> pert (fops.powz a n));
+  dfun = (fun f a -> pert (fops.dfun f a)); ufun = (fun f a -> match f with Heav | Abs -> fops.ufun f a | _ -> pert (fops.ufun f a));
+  bfun = (fun f a b -> match f with Max | Min -> fops.bfun f a b | _ -> pert (fops.bfun f a b)) }
+
 (* ---- s-expressions ---- *)
 type sx = A of string | L of sx list
 let tokenize s =
@@ -125,7 +134,7 @@ let () =
           if i < Array.length vals then vals.(i) *. (1. +. k *. float_of_int (i + 1) *. 1e-12) else 0. in
         (try
           let e = fst (parse_sx (tokenize sx)) |> expr_of in
-          let fv = eval fops (env 0.) e and fv' = eval fops (env 1.) e in
+          let fv = eval fops (env 0.) e and fv' = eval fops_p (env 1.) e in
           let dres =
             try
               let d = match String.split_on_char ':' mode with
@@ -133,7 +142,7 @@ let () =
                 | ["DD"; i; j] -> Some (deriv (deriv e (int_of_string i)) (int_of_string j))
                 | _ -> None in
               (match d with
-               | Some d -> Printf.sprintf "OK %.17g %.17g" (eval fops (env 0.) d) (eval fops (env 1.) d)
+               | Some d -> Printf.sprintf "OK %.17g %.17g" (eval fops (env 0.) d) (eval fops_p (env 1.) d)
                | None -> "- nan nan")
             with Refused -> "NONE nan nan" in
           Printf.printf "M %s %.17g %.17g %s\n" id fv fv' dres
